@@ -152,7 +152,7 @@ def _run_race(binary, jobs, workers, gomaxprocs):
                     # (a worker that the orchestrator flagged as stalled but that went on and finished
                     # its job - "worker done" and no SIGQUIT dump: the flag was raised on a starved
                     # machine at the moment the worker moved on - is not a stalled worker)
-                    stalled = "WATCHDOG" in errtxt and ("SIGQUIT" in errtxt or "worker done" not in errtxt)
+                    stalled = "WATCHDOG" in errtxt and ("SIGQUIT: quit" in errtxt or "worker done" not in errtxt)
                     if "panic:" in errtxt or "fatal error:" in errtxt or stalled:
                         kind, sig, detail = orch.classify_crash(rc, errtxt)
                         trouble.append((kind, sig, detail, cur))
